@@ -324,6 +324,7 @@ func init() {
 			complete := true
 			eval := func(c c10Case, nontrivial bool) {
 				r.Evals.Add(1)
+				r.Journal(c)
 				r.Transitions.Add(2 + int64(len(c.Cuts)))
 				ok, sig, detail := c10Eval(c)
 				if nontrivial {
